@@ -58,6 +58,7 @@ def generate(rng, tier="quick"):
                 break
     nodes = []
     lanes = []
+    family = gen.near_family(rng, 2 * npairs + 1) if rng.random() < 0.1 else None
     for p in range(npairs):
         # parameter set: often the shared one, sometimes custom seeds over the SAME group object
         g = rng.choice(base_groups)
@@ -75,6 +76,9 @@ def generate(rng, tier="quick"):
         pw = gen.gen_bytes(rng)
         ida, idb = gen.gen_ids(rng)
         ids = gen.gen_bytes(rng)
+        if family:
+            # different sessions use different, but look-alike, large identities
+            ida, idb, ids = family[2 * p], family[2 * p + 1], family[2 * p]
         pair = []
         for cls in (("A", "B") if flavour == "AB" else ("S", "S")):
             nd = {"cls": cls, "pw": pw.hex(), "pset": pi, "entropy": gen.gen_entropy(rng, g, 0.15)}
